@@ -34,7 +34,7 @@ pub static PROP: Prop = Prop {
         "the AEAD primitive is trusted; forging a valid tag by flipping bits is treated as impossible",
     ],
     profiles: Profiles::Strict,
-    cases: |t| t.pick(900, 30_000),
+    cases: |t| t.pick(6_000, 60_000),
     budget_s: |t| t.pick(60, 600),
     run,
     min_nontrivial: 40,
